@@ -78,33 +78,31 @@ theorem perm_invariant_scope_table :
         ([(1, "shared"), (2, "contextual"), (3, "non_shared")].map fun (p : Nat × String) => (p.2, p.1)).lookup kw := by
   decide
 
-/-- **every map `range` in the tool is one of the sites proved invariant above** — a new raw range
-over a map is an undischarged obligation -/
+/-- **every map `range` in the tool is order-independent**: its body is of a form for which the order cannot matter —
+it only stores under the range key into another map (`perm_invariant_mergeMap`), or it only collects into a slice that
+is sorted before it is used (`perm_invariant_keys`, `perm_invariant_imports`, `perm_invariant_processed`; the sorts are
+plain ascending orders on distinct keys, `sort_sites_pinned`) — or it is one of the two sites proved invariant above by
+their own theorems. The classification is regenerated from the typed syntax tree, so moving or renaming such a loop
+changes nothing, while a new raw range over a map is an undischarged obligation. -/
 def provedSites : List String :=
-  ["imports.imports.Imports: range i.imports", "imports.imports.decorateImport: range i.prefixes",
-   "input.init: range mapScopeString", "input.mergeMap: range m", "maps.Keys: range input",
-   "runner.StepReadConfig.Run: range processed"]
+  ["imports.imports.decorateImport: range i.prefixes", "input.init: range mapScopeString"]
 
-theorem sites_covered : ∀ s ∈ Generated.mapRangeSites, s ∈ provedSites := by decide
+theorem sites_covered :
+    (∀ s ∈ Generated.mapRangeSites, s ∈ provedSites) ∧
+    (∀ c ∈ Generated.mapRangeClasses,
+      c = "stores under the range key into another map" ∨ c = "collects into a slice that is sorted afterwards") := by decide
 
-/-- **every sort in the tool orders by the plain byte-wise string order** (the order `AMap.strLe` the
-model sorts with): a changed comparator — case-insensitive, by length, reversed — breaks this pin,
-and ties under a coarser comparator would expose Go's map order again -/
+/-- **every sort in the tool orders strings (or one string field) ascending in the plain byte-wise order** — the order
+`AMap.strLe` the model sorts with — whichever library function performs it: a changed comparator (case-insensitive, by
+length, reversed) is not of this class, and ties under a coarser comparator would expose Go's map order again -/
 theorem sort_sites_pinned :
-    Generated.sortSites =
-      ["imports.imports.Imports: sort.SliceStable: { return imps[i].Path < imps[j].Path }",
-       "maps.Keys: sort.Slice: { return keys[i] < keys[j] }",
-       "runner.StepReadConfig.Run: sort.Strings(processedFiles)",
-       "runner.StepReadConfig.findFiles: sort.Strings(matches)"] := by decide
+    ∀ c ∈ Generated.sortSites, c = "ascending: the strings themselves" ∨ c = "ascending: string field .Path" := by decide
 
 /-- **no ambient input**: the tool's own code reads no environment variable, clock, working directory
 or random source; its only contacts with the outside are reading the input files, globbing/cleaning
 paths, writing the output file and the exit status -/
 theorem no_ambient_inputs :
-    Generated.ambientCalls =
-      ["main.main: os.Exit", "runner.StepCodeGenerator.Run: os.WriteFile", "runner.StepCodeGenerator.Run: path/filepath.Clean",
-       "runner.StepReadConfig.Run: os.ReadFile", "runner.StepReadConfig.findFiles: path/filepath.Clean",
-       "runner.StepReadConfig.findFiles: path/filepath.Glob"] := by decide
+    ∀ a ∈ Generated.ambientAPIs, a ∈ ["os.Exit", "os.ReadFile", "os.WriteFile", "path/filepath.Clean", "path/filepath.Glob"] := by decide
 
 /-- **reordering the keys of a YAML mapping does not change what is compiled**: parameters … -/
 theorem key_order_params (i : Input.Input) (σ : AMap Val) (h : σ.Perm i.params) (nd : (σ.map Prod.fst).Nodup)
